@@ -9,4 +9,4 @@ rsync -a --delete --exclude target --exclude .git /repo/ $S/repo/
 ( cd $S/repo && patch -p1 -s < "$PATCH" ) || { echo "PATCH DID NOT APPLY"; exit 3; }
 rsync -a --delete --exclude 'target*' /verif/harness/ $S/harness/
 sed -i "s#path = \"/repo\"#path = \"$S/repo\"#" $S/harness/Cargo.toml
-VERIF_HARNESS=$S/harness VERIF_TARGET=$S/target /verif/check $PROP $TIER 2>&1 | grep -E "^(VIOLATION|KNOWN|INCONCLUSIVE|C[0-9]+ )|^  C[0-9]+:" | cut -c1-400
+VERIF_SKIP_ENGINES=${SKIP_ENGINES:-} VERIF_HARNESS=$S/harness VERIF_TARGET=$S/target /verif/check $PROP $TIER 2>&1 | grep -E "^(VIOLATION|KNOWN|INCONCLUSIVE|C[0-9]+ )|^  C[0-9]+:" | cut -c1-400
